@@ -49,8 +49,9 @@ def field_key(pl):
 
 
 class Prov:
-    def __init__(self, prog, extra_transparent=(), through_decorators=True, max_nodes=4000):
+    def __init__(self, prog, extra_transparent=(), through_decorators=True, max_nodes=4000, transparent_fn=None):
         self.prog = prog
+        self.transparent_fn = transparent_fn
         self.extra = set(extra_transparent)
         self.through_decorators = through_decorators
         self.max_nodes = max_nodes
@@ -58,6 +59,8 @@ class Prov:
         self._field_writes = None
 
     def transparent(self, term):
+        if self.transparent_fn and self.transparent_fn(term):
+            return True
         return C.is_transparent(term, self.extra)
 
     # ---- indices
